@@ -131,7 +131,7 @@ def read_trace(path):
 
 def trace_bounds(evs_list):
     """universe sizes needed by the trace spec for these traces"""
-    b = {'NW': 1, 'MaxD': 2, 'MaxS': 2, 'MaxTag': 1, 'MaxObj': 1, 'MaxL': 2, 'MaxQ': 1}
+    b = {'NW': 1, 'MaxD': 2, 'MaxS': 2, 'MaxTag': 1, 'MaxObj': 1, 'MaxL': 2, 'MaxQ': 1, 'NKeys': 1024}
     for evs in evs_list:
         for e in evs:
             n, a = e['e'], e['a']
@@ -750,6 +750,22 @@ def check_C09(ctx):
               thorough_designs=[('MC_Sync', 'MC_Sync_felock4.cfg')])
 
 
+def check_C10(ctx):
+    res, fails = std_check(ctx, [('MC_Sync', 'MC_Sync_keys.cfg')], lambda rng: gen_tls_prog(rng, churn=rng.random() < 0.4), 24, 5,
+              [('value_of_other_thread', mut_first(lambda e: e['e'] == 'U_GetSpecific' and e['a'][2] > 0, set_arg(2, lambda v: v + 1))),
+               ('lost_value', mut_first(lambda e: e['e'] == 'U_GetSpecific' and e['a'][2] > 0, set_arg(2, 0))),
+               ('duplicate_live_key', mut_first(lambda e: e['e'] == 'KaCas' and e['a'][2] == 1, lambda evs, i: [dict(e, a=[x + (1 if (e['e'] in ('KaLd', 'KaNext', 'KaCas') and j == 0) else 0) for j, x in enumerate(e['a'])]) if False else e for e in evs][:i] + [dict(evs[i], a=[evs[i]['a'][0], evs[i]['a'][0], 1])] + evs[i + 1:])),
+               ('invalid_index_accepted', mut_first(lambda e: e['e'] == 'U_SetSpecific' and e['a'][3] != 0, set_arg(3, 0)))])
+
+
+def check_C11(ctx):
+    std_check(ctx, [('MC_Sync', 'MC_Sync_keys.cfg')], lambda rng: gen_tls_prog(rng, churn=False), 24, 5,
+              [('destructor_skipped', mut_first(lambda e: e['e'] == 'U_Dtor' and e['a'][2] != 0, drop_at)),
+               ('destructor_twice', mut_first(lambda e: e['e'] == 'U_Dtor' and e['a'][2] != 0, lambda evs, i: evs[:i + 1] + [evs[i]] + evs[i + 1:])),
+               ('destructor_wrong_value', mut_first(lambda e: e['e'] == 'U_Dtor' and e['a'][2] != 0, set_arg(2, lambda v: v + 7))),
+               ('destructor_of_other_key', mut_first(lambda e: e['e'] == 'U_Dtor' and e['a'][2] != 0, set_arg(1, lambda v: 1 + v % 3)))])
+
+
 def check_C12(ctx):
     std_check(ctx, [('MC_Core', 'MC_Core_small.cfg')],
               lambda rng: gen_core_prog(rng, maxb=10, flagset=(0, F_STACK, F_STACK, F_PF | F_STACK, F_ATTR, F_DETACH | F_STACK, F_PF)),
@@ -781,7 +797,7 @@ def check_C14(ctx):
               thorough_designs=[('MC_Sync', 'MC_Sync_once3.cfg')])
 
 
-CHECKS = {'C01': check_C01, 'C02': check_C02, 'C04': check_C04, 'C09': check_C09, 'C05': check_C05, 'C06': check_C06, 'C07': check_C07,
+CHECKS = {'C01': check_C01, 'C02': check_C02, 'C04': check_C04, 'C09': check_C09, 'C10': check_C10, 'C11': check_C11, 'C05': check_C05, 'C06': check_C06, 'C07': check_C07,
           'C08': check_C08, 'C12': check_C12, 'C13': check_C13, 'C14': check_C14}
 
 
@@ -924,6 +940,71 @@ def gen_felock_prog(rng):
         bodies.append(ops)
     rng.shuffle(bodies)
     return {'init': [], 'bodies': _spawn_join(rng, bodies)}
+
+
+def gen_tls_prog(rng, churn=False):
+    """thread-specific data.  main creates `fill` filler keys (so that the keys under test sit at chosen
+    positions of the 3-level tree), then the keys under test; children store / read back / overwrite values
+    across yields (migrations), terminate by return, exit or cancellation; invalid indices are probed."""
+    ops = []
+    slot = 100
+    fill = rng.choice((0, 0, 3, 15, 16, 17, 63, 64, 255, 256, 257, 300, 511, 767, 1019)) if not churn else rng.choice((0, 2))
+    for i in range(fill):
+        ops.append((OP['KCREATE'], slot, rng.choice((0, 1, 2, 3)), 0)); slot += 1
+    nk = rng.randint(2, 5)
+    dts = [rng.choice((0, 1, 2, 3)) for _ in range(nk)]
+    for i in range(nk):
+        ops.append((OP['KCREATE'], i, dts[i], 0))
+    if fill >= 1019 and rng.random() < 0.7:      # exhaustion: the table has 1024 keys
+        for i in range(1024 - fill - nk + 2):
+            ops.append((OP['KCREATE'], 1090, 0, 0))
+    if fill and rng.random() < 0.5:               # shuffle the free list: delete some fillers, create again
+        dels = rng.sample(range(100, 100 + fill), min(fill, rng.randint(1, 4)))
+        for d in dels:
+            ops.append((OP['KDELETE'], d, 0, 0))
+        for d in dels[:rng.randint(0, len(dels))]:
+            ops.append((OP['KCREATE'], d, rng.choice((0, 1)), 0))
+    nt = rng.randint(1, 4)
+    bodies = []
+    cancelled = []
+    for t in range(1, nt + 1):
+        b = []
+        for _ in range(rng.randint(1, 8)):
+            r = rng.random()
+            k = rng.randrange(nk)
+            if r < 0.4:
+                b.append((OP['KSET'], k, rng.choice((0, 1000 * t + k + 1, 1000 * t + k + 1, 500000 + 1000 * t + k)), 0))
+            elif r < 0.7:
+                b.append((OP['KGET'], k, 0, 0))
+            elif r < 0.85:
+                b.append((OP['YD'], rng.choice((0, 2, 3, 4)), 0, 0))
+            elif r < 0.93:
+                b.append((OP['KSET'], rng.choice((-1, 1024, 5000, -7)), 5, 1))
+            else:
+                b.append((OP['KGET'], rng.choice((-1, 1024, 4096)), 0, 1))
+        if churn:
+            own = 200 + 10 * t
+            for i in range(rng.randint(2, 4)):
+                b.append((OP['KCREATE'], own + i, 1, 0))
+                if rng.random() < 0.6:
+                    b.append((OP['KDELETE'], own + rng.randint(0, i), 0, 0))
+        e = rng.random()
+        if e < 0.25:
+            b.append((OP['EX'], 2000 + t, 0, 0))
+        elif e < 0.4:
+            b.append((OP['TESTCANCEL'], 0, 0, 0)); cancelled.append(t)
+        bodies.append(b)
+    main = list(ops)
+    main += [(OP['CR'], t, rng.choice((0, 0, F_PF)), 0) for t in range(1, nt + 1)]
+    if rng.random() < 0.3:
+        main.append((OP['KDELETE'], rng.randrange(nk), 0, 0))     # delete a key while threads may hold values under it
+    main += [(OP['KSET'], 0, 99, 0), (OP['KGET'], 0, 0, 0)]
+    for t in cancelled:
+        main.append((OP['CANCEL'], t, 0, 0))
+    order = list(range(1, nt + 1)); rng.shuffle(order)
+    main += [(OP['JN'], t, 0, 0) for t in order]
+    main += [(OP['KGET'], 0, 0, 0), (OP['KDELETE'], 0, 1, 2000), (OP['KDELETE'], 1, 0, 0), (OP['KDELETE'], 1, 0, 0)]
+    return {'init': [], 'bodies': [main] + bodies}
 
 
 def gen_once_prog(rng):
